@@ -252,9 +252,9 @@ theorem C13_window_bound (content : Smpl.Roland.Bytes) (start n : Int) (rev : Bo
         -- reverseWords never lengthens
         have : ∀ x : Smpl.Roland.Bytes, (Smpl.Roland.reverseWords x).length ≤ x.length := by
           intro x
-          induction x using Smpl.Roland.reverseWords.induct with
-          | case1 a b rest ih => simp [Smpl.Roland.reverseWords]; omega
-          | case2 t _ => unfold Smpl.Roland.reverseWords; split <;> simp_all
+          induction x using Smpl.ShortRead.reverseWords.induct with
+          | case1 a b rest ih => simp [Smpl.ShortRead.reverseWords]; omega
+          | case2 t _ => unfold Smpl.ShortRead.reverseWords; split <;> simp_all
         exact Nat.le_trans (this _) hlen
       · simp at h
     · simp at h; subst h; exact hlen
